@@ -1,4 +1,6 @@
 # C02 - decoding work and memory are bounded by the datagram's size.
+import codec
+import flowjobs
 import fuzzrun
 import vlib
 
@@ -38,6 +40,46 @@ def sample(ctx, proto, pairs):
                 "records": [x.get("nrec") for x in big[1]["res"]]})
 
 
+def big_cache_stage(ctx, thorough):
+    """'...in all template-cache states reachable by earlier payloads': a cache that thousands of ordinary templates from many
+    exporters have filled, then single datagrams - hundreds of sets of unknown templates, reserved ids, known data sets, cut
+    sets - whose cost must still be bounded by their own octets, not by what the cache holds"""
+    u16 = lambda n: [(n >> 8) & 255, n & 255]
+    ntpl = 6000 if thorough else 2400
+    for proto in ("ipfix", "v9"):
+        msgs = []
+        per = 100
+        for k in range(ntpl // per):
+            exp = [10, 20, k % 250, 1 + k // 250]
+            recs = []
+            for t in range(per):
+                recs += u16(300 + t) + u16(1) + u16(8) + u16(4)
+            if proto == "ipfix":
+                body = u16(2) + u16(4 + len(recs)) + recs
+                msgs.append({"exp": exp, "buf": [0, 10] + u16(16 + len(body)) + [0] * 12 + body})
+            else:
+                body = u16(0) + u16(4 + len(recs)) + recs
+                msgs.append({"exp": exp, "buf": [0, 9] + u16(per) + [0] * 16 + body})
+        probes = []
+        unknown = [o for t in range(360) for o in u16(20000 + t) + u16(4)]                       # 360 empty sets of unknown templates
+        unknown8 = [o for t in range(180) for o in u16(20000 + t) + u16(8) + [1, 2, 3, 4]]        # with a body each
+        reserved = [o for t in range(360) for o in u16(4 + t % 250) + u16(4)]
+        known = [o for t in range(100) for o in u16(300 + t) + u16(12) + [1, 2, 3, 4, 5, 6, 7, 8]]
+        for body in (unknown, unknown8, reserved, known, unknown[:400] + known[:600] + unknown8[:400]):
+            hdr = ([0, 10] + u16(16 + len(body)) + [0] * 12) if proto == "ipfix" else ([0, 9] + u16(30) + [0] * 16)
+            probes.append({"exp": [10, 20, 0, 1], "buf": hdr + body})
+            probes.append({"exp": [10, 99, 99, 99], "buf": hdr + body})                           # an exporter the cache does not know
+        job = {"msgs": msgs + probes, "measure": True, "want_json": True}
+        r = flowjobs.run_jobs(ctx, codec.driver(ctx, proto), codec.P[proto]["jobs"], [job], tag="bigcache_" + proto, timeout=600)[0]
+        # only the probes are judged here (the filling datagrams are ordinary template datagrams, judged like any other)
+        name = codec.P[proto]["name"] + " with a cache of %d templates" % ntpl
+        if "killed" in r or r.get("skipped"):
+            judge(ctx, name, {"msgs": job["msgs"]}, r)
+        else:
+            judge(ctx, name, {"msgs": probes}, {"res": r["res"][len(msgs):]})
+        ctx.traces_validated += 1
+
+
 def check(ctx):
     thorough = ctx.tier == "thorough"
     ctx.rule = ("same histories as C01 (TLC grammar-boundary enumeration, on which TLC proves Total/Progress/OutBounded for the "
@@ -47,6 +89,7 @@ def check(ctx):
     ctx.assumptions += ["quick tier measures every 3rd TLC history (offset by the seed) plus 8000 seeded mutants per protocol; thorough all",
                         "allocation bound: linear in the datagram's octets per template field already received; TotalAlloc deltas are coarse",
                         "time bound is three orders of magnitude above the normal cost (microseconds)"]
+    big_cache_stage(ctx, thorough)
     n = 200000 if thorough else 8000
     for proto, pairs in fuzzrun.all_protocols(ctx, thorough, n, True, 1 if thorough else 3):
         for job, r in pairs:
